@@ -979,14 +979,20 @@ impl AArch64Instruction {
     // architecture manual: https://developer.arm.com/documentation/ddi0487/latest/
     pub fn write_to_value(self, extracted_value: u64, negative: bool, dest: &mut [u8]) {
         let mut mask;
+        // The immediate field of the instruction might not be zero in the input file, so we clear
+        // it before we write the relocation value into it.
         match self {
             // C6.2.13
             AArch64Instruction::Adr => {
+                // Clear immlo[30:29] and immhi[23:5]
+                and_from_slice(dest, &0x9f00_001f_u32.to_le_bytes());
                 mask = ((extracted_value.extract_bit_range(0..2) as u32) << 29)
                     | ((extracted_value.extract_bit_range(2..32) as u32) << 5);
             }
             // C6.2.252, C6.2.254
             AArch64Instruction::Movkz => {
+                // Clear imm16[20:5]
+                and_from_slice(dest, &0xffe0_001f_u32.to_le_bytes());
                 mask = (extracted_value as u32) << 5;
             }
             // C6.2.253, C6.2.254
@@ -1007,29 +1013,43 @@ impl AArch64Instruction {
             }
             // C6.2.192
             AArch64Instruction::Ldr => {
+                // Clear imm19[23:5]
+                and_from_slice(dest, &0xff00_001f_u32.to_le_bytes());
                 mask = (extracted_value as u32) << 5;
             }
             AArch64Instruction::LdrRegister => {
+                // Clear imm12[21:10]
+                and_from_slice(dest, &0xffc0_03ff_u32.to_le_bytes());
                 mask = (extracted_value as u32) << 10;
             }
             // C6.2.5
             AArch64Instruction::Add => {
+                // Clear imm12[21:10]
+                and_from_slice(dest, &0xffc0_03ff_u32.to_le_bytes());
                 mask = (extracted_value as u32) << 10;
             }
             // C7.2.208, C6.2.383
             AArch64Instruction::LdSt => {
+                // Clear imm12[21:10]
+                and_from_slice(dest, &0xffc0_03ff_u32.to_le_bytes());
                 mask = (extracted_value as u32) << 10;
             }
             // C6.2.438
             AArch64Instruction::TstBr => {
+                // Clear imm14[18:5]
+                and_from_slice(dest, &0xfff8_001f_u32.to_le_bytes());
                 mask = (extracted_value as u32) << 5;
             }
             // C6.2.34
             AArch64Instruction::Bcond => {
+                // Clear imm19[23:5]
+                and_from_slice(dest, &0xff00_001f_u32.to_le_bytes());
                 mask = (extracted_value as u32) << 5;
             }
             // C6.2.33
             AArch64Instruction::JumpCall => {
+                // Clear imm26[25:0]
+                and_from_slice(dest, &0xfc00_0000_u32.to_le_bytes());
                 mask = extracted_value as u32;
             }
             AArch64Instruction::MachOLow12 => {
